@@ -85,7 +85,8 @@ def helper_oracle(res: Result, rng: random.Random, fails: list, n: int):
             body = b"".join(avps)
             # (the request's application id need not be the one the Application object was created with)
             req_app = rng.choice([4, 4, 0, 1, 3, 16777238, 0xffffffff])
-            req_hbh, req_e2e = rng.getrandbits(32), rng.getrandbits(32)
+            # (identifiers are the sender's choice, 0 included)
+            req_hbh, req_e2e = (rng.choice([0, 1, 2**31, 2**32 - 1, rng.getrandbits(32), rng.getrandbits(32)]) for _ in range(2))
             data = gen.rfc_header(1, 20 + len(body), flags, code, req_app, req_hbh, req_e2e) + body
             try:
                 req = Message.from_bytes(data)
@@ -148,6 +149,118 @@ def helper_oracle(res: Result, rng: random.Random, fails: list, n: int):
         node_mod.StoppableThread, peer_mod.StoppableThread = saved
 
 
+def registered_commands(res: Result, fails: list):
+    """A command added at run time with `commands.register()` (the documented extension mechanism): its requests are
+    answered with *its* Answer class, the header mirrored, and the helpers' AVPs on the wire (real-only oracle)."""
+    from diameter.message import Message, DefinedMessage, commands
+    from diameter.message.avp.generator import AvpGenDef
+    from diameter.message.commands._attributes import assign_attr_from_defs
+    from diameter.message import constants
+    from diameter.node import Node
+    from diameter.node.application import Application
+    try:
+        class XVerifPair(DefinedMessage):
+            code = 7777010
+            name = "X-Verif-Pair"
+            avp_def = ()
+
+            @classmethod
+            def type_factory(cls, header):
+                return XVerifPairRequest if header.is_request else XVerifPairAnswer
+
+        class XVerifPairAnswer(XVerifPair):
+            session_id: str
+            origin_host: bytes
+            origin_realm: bytes
+            result_code: int
+            avp_def = (AvpGenDef("session_id", constants.AVP_SESSION_ID, is_required=True),
+                       AvpGenDef("origin_host", constants.AVP_ORIGIN_HOST, is_required=True),
+                       AvpGenDef("origin_realm", constants.AVP_ORIGIN_REALM, is_required=True),
+                       AvpGenDef("result_code", constants.AVP_RESULT_CODE))
+
+            def __post_init__(self):
+                self.header.command_code = self.code
+                super().__post_init__()
+                self.header.is_request = False
+                assign_attr_from_defs(self, self._avps)
+                self._avps = []
+
+        class XVerifPairRequest(XVerifPair):
+            session_id: str
+            origin_host: bytes
+            origin_realm: bytes
+            avp_def = (AvpGenDef("session_id", constants.AVP_SESSION_ID, is_required=True),
+                       AvpGenDef("origin_host", constants.AVP_ORIGIN_HOST, is_required=True),
+                       AvpGenDef("origin_realm", constants.AVP_ORIGIN_REALM, is_required=True))
+
+            def __post_init__(self):
+                self.header.command_code = self.code
+                super().__post_init__()
+                self.header.is_request = True
+                assign_attr_from_defs(self, self._avps)
+                self._avps = []
+        commands.register(XVerifPair)
+    except Exception as ex:  # noqa
+        fails.append({"what": f"registering a command at run time raised {type(ex).__name__}: {ex}", "line": "register()"})
+        return
+    try:
+        import realnode  # noqa: F401
+        from diameter.node import node as node_mod, peer as peer_mod
+
+        class _T:
+            def __init__(self, *a, **k):
+                self.is_stopped = False
+
+            def start(self):
+                pass
+
+            def stop(self):
+                self.is_stopped = True
+
+            def join(self, *a):
+                pass
+
+            def is_alive(self):
+                return False
+        saved = (node_mod.StoppableThread, peer_mod.StoppableThread)
+        node_mod.StoppableThread = peer_mod.StoppableThread = _T
+        try:
+            node = Node("verif.node.example", "verif.realm.example")
+            app = Application(application_id=4, is_auth_application=True)
+            app._node = node
+            for flags in (0x80, 0xc0):
+                body = (gen.rfc_wire(263, 0, 0x40, b"sess;x") + gen.rfc_wire(264, 0, 0x40, b"peer.host") +
+                        gen.rfc_wire(296, 0, 0x40, b"peer.realm"))
+                data = gen.rfc_header(1, 20 + len(body), flags, 7777010, 4, 77, 88) + body
+                req = Message.from_bytes(data)
+                res.cases += 1
+                res.count("registered-command")
+                problems = []
+                if type(req) is not XVerifPairRequest:
+                    problems.append(f"request decoded as {type(req).__name__}")
+                for who, ans in (("to_answer", req.to_answer()), ("node", node._generate_answer(None, req)), ("app", app.generate_answer(req))):
+                    if type(ans) is not XVerifPairAnswer:
+                        problems.append(f"{who}: answer is a {type(ans).__name__}, not the registered command's answer class")
+                        continue
+                    h = gen.rfc_parse_header(ans.as_bytes())
+                    if (h[2], h[3], h[4], h[5], h[6]) != (flags & 0x40, 7777010, 4, 77, 88):
+                        problems.append(f"{who}: header {h}")
+                    if who != "to_answer":
+                        got = {(c, v): p for c, v, _f, p in gen.rfc_parse_avps(ans.as_bytes()[20:])}
+                        if got.get((264, 0)) != b"verif.node.example" or got.get((296, 0)) != b"verif.realm.example" or \
+                                got.get((263, 0)) != b"sess;x":
+                            problems.append(f"{who}: AVPs on the wire {sorted(got)}")
+                if problems:
+                    fails.append({"what": "a command registered at run time is not answered with its own answer class / mirrored header "
+                                          "/ helper AVPs: " + "; ".join(problems)[:500], "line": f"registered command, flags {flags:#x}"})
+        finally:
+            node_mod.StoppableThread, peer_mod.StoppableThread = saved
+            commands.all_commands.pop(7777010, None)
+    except Exception as ex:  # noqa
+        commands.all_commands.pop(7777010, None)
+        fails.append({"what": f"answering a run-time registered command raised {type(ex).__name__}: {ex}", "line": "registered command"})
+
+
 def run_cases(res: Result, rng: random.Random, flags_list, n_helper: int, fails: list):
     from realcodec import side
     sd = side()
@@ -178,6 +291,7 @@ def run_cases(res: Result, rng: random.Random, flags_list, n_helper: int, fails:
             if ah != want:
                 fails.append({"what": "answer header does not mirror the request (version/code/app/ids; flags = P bit only)",
                               "line": line, "real": str(ah), "expected": str(want)})
+    registered_commands(res, fails)
     helper_oracle(res, rng, fails, n_helper)
     for s in d.lines[:2] + d.lines[-2:]:
         res.sample({"line": s})
